@@ -100,10 +100,23 @@ def roundtrip(db):
         d1 = O.dump_db(db)
     except O.OutOfModel as e:
         return None, 'outOfModel', str(e), None
+    except O.NotADatabase as e:
+        # e.g. a section list that holds objects of another kind after an earlier rendering
+        return False, 'not-a-database', str(e), None
     try:
         text = db.dbml
     except Exception as e:  # noqa: BLE001
         return False, 'render-raises', O.classify(e), d1
+    try:
+        again = db.dbml
+        d1b = O.dump_db(db)
+    except Exception as e:  # noqa: BLE001
+        return False, 'render-again-raises', O.classify(e), d1
+    if again != text:
+        return False, 'same-database-renders-differently', {'first': text, 'second': again}, d1
+    if d1b != d1:
+        diff = PC.first_diff(d1, d1b)
+        return False, 'rendering-changed-the-database', {'path': diff[0], 'before': diff[1], 'after': diff[2]}, d1
     r2 = PC.impl_parse(text, d1['allow_properties'])
     if 'ok' not in r2:
         return False, 'reparse-raises:' + r2['err'], {'dbml': text}, d1
@@ -194,6 +207,10 @@ def job(j):
     ok, how, detail, d1 = roundtrip(db)
     if ok is None:
         return {'skip': how}
+    if d1 is None:
+        d1 = {'tables': [], 'refs': [], 'enums': [], 'groups': [], 'sticky': [], 'project': None,
+              'allow_properties': False, 'undumpable': str(detail)}
+        detail = {'why': str(detail)}
     out = {'ok': ok, 'how': how, 'detail': detail if not ok else None, 'dump': d1, 'src': src,
            'reasons': sorted(EX.reasons(d1)), 'dbml': detail.get('dbml') if ok else None,
            'features': GD.features(d1)}
